@@ -589,6 +589,14 @@ impl OcflRepo {
             )));
         }
 
+        // It is the name of a directory
+        if content_dir.len() > 255 || content_dir.contains('\0') {
+            return Err(RocflError::InvalidValue(
+                "The content directory cannot be longer than 255 bytes or contain a NUL character"
+                    .to_string(),
+            ));
+        }
+
         let _lock = self.get_lock_manager()?.acquire(object_id)?;
 
         match self.store.get_inventory(object_id) {
